@@ -1174,12 +1174,20 @@ static int depth;
 static void deep_copy_svalue (svalue_t *, svalue_t *);
 
 static array_t *
-deep_copy_array (array_t * arg)
+deep_copy_array (array_t * arg, int is_class)
 {
   array_t *vec;
   int i;
 
-  vec = allocate_empty_array (arg->size);
+  /* A class value is released by dealloc_class(), which frees the block whatever its
+   * size and does not touch the array statistics. It has to come from the class
+   * allocator: allocate_empty_array() counts the block in num_arrays and
+   * total_array_size, and hands out the static the_null_array for a class without
+   * members. */
+  if (is_class)
+    vec = allocate_class_by_size (arg->size);
+  else
+    vec = allocate_empty_array (arg->size);
   for (i = 0; i < arg->size; i++)
     deep_copy_svalue (&arg->item[i], &vec->item[i]);
   return vec;
@@ -1228,7 +1236,7 @@ deep_copy_svalue (svalue_t * from, svalue_t * to)
              MAX_SAVE_SVALUE_DEPTH);
         }
       *to = *from;
-      to->u.arr = deep_copy_array (from->u.arr);
+      to->u.arr = deep_copy_array (from->u.arr, from->type == T_CLASS);
       depth--;
       break;
     case T_MAPPING:
